@@ -754,7 +754,9 @@ class App(falcon.app.App):
             return
 
         stream = resp.stream
-        if not stream:
+        # NOTE: A stream object may well be falsy (e.g., it defines __len__);
+        #   only None means that there is no stream.
+        if stream is None:
             resp._headers['content-length'] = '0'
 
         await send(
@@ -767,7 +769,7 @@ class App(falcon.app.App):
             }
         )
 
-        if stream:
+        if stream is not None:
             # Detect whether this is one of the following:
             #
             #   (a) async file-like object (e.g., aiofiles)
